@@ -1084,3 +1084,84 @@ Proof.
   repeat match goal with |- _ /\ _ => split end; vm_compute; reflexivity.
 Qed.
 End C07_translated_4.
+
+(* ---- the translation tie, continued (coq/TrViLn.v, coq/TrViMot.v): vi_cnt (the saturated count) and vi_motionln (the line motions
+   + - _ <newline> j k G H L M and N%: a switch statement) of vi.c.  vi_motionln reads its key with vi_read() and the window height
+   with xrows = term_rows(), which are not translated: the theorem holds for every oracle ext (CLiteExt.callx) whose vi_read returns the
+   key c and leaves a memory m1 that still holds the buffer, bufs[0].lb, *row, vi_arg1 / vi_arg2 and xtop (ln_mem), whose term_rows
+   returns rows and changes nothing, and whose vi_back (reached only for a key that is no line motion) leaves m3.  Result: the key and
+   the model's row stored in *row; -1 (N% with N > 100); or 0 after the key was pushed back.  Rows, xtop, xrows below 2^30 (the count is
+   saturated at 2^30 so that row + count stays inside int: fix 164b6b4), 100 * number of lines inside int (N% multiplies in int). *)
+From NV Require CLiteExt TrViLn.
+Section C07_translated_5.
+Import CLite CLiteProps CLiteExt GenCFuncs TrLbufBase TrUc TrMot TrViMot TrViLn.
+
+Theorem C07_tr_vi_cnt : forall m a1 a2 d fuel, cell_at m G_vi_arg1 a1 -> cell_at m G_vi_arg2 a2 -> i32 a1 -> i32 a2 ->
+  callf cprog fuel (S d) F_vi_cnt [] m = Ok (VInt (vi_cnt_m a1 a2), m) /\
+  ((0 < (if a1 =? 0 then 1 else a1) * (if a2 =? 0 then 1 else a2) < 1073741824)%Z ->
+   vi_cnt_m a1 a2 = ((if a1 =? 0 then 1 else a1) * (if a2 =? 0 then 1 else a2))%Z).
+Proof.
+  intros m a1 a2 d fuel H1 H2 I1 I2. split; [exact (tr_vi_cnt m a1 a2 d fuel H1 H2 I1 I2)|].
+  intro H. unfold vi_cnt_m. destruct (Z.ltb_spec 0 ((if a1 =? 0 then 1 else a1) * (if a2 =? 0 then 1 else a2))%Z); [|lia].
+  destruct (Z.ltb_spec ((if a1 =? 0 then 1 else a1) * (if a2 =? 0 then 1 else a2))%Z 1073741824); [reflexivity|lia].
+Qed.
+Print Assumptions C07_tr_vi_cnt.
+
+Theorem C07_tr_vi_motionln : forall ext m m1 m3 lb bln lbs lines br r a1 a2 top rows c cmd vb d fuel,
+  ln_mem m lb bln lbs lines br r a1 a2 top -> ln_mem m1 lb bln lbs lines br r a1 a2 top -> lines_small lines ->
+  ext X_vi_read [] m = Ok (VInt c, m1) ->
+  (forall M, ext X_term_rows [] M = Ok (VInt rows, M)) ->
+  ext X_vi_back [VInt c] (m1 ++ [[VUndef]; [VUndef]]) = Ok (vb, m3) ->
+  i32 a1 -> i32 a2 -> (-1073741824 <= r <= 1073741823)%Z -> (0 <= top <= 1073741823)%Z -> (0 <= rows <= 1073741823)%Z ->
+  (blen (map chop lines) * 100 <= 2147483647)%Z -> c <> 39%Z -> c <> cmd -> i32 cmd ->
+  callx ext cprog fuel (S (S (S d))) F_vi_motionln [VPtr br 0; VInt cmd] m
+  = match (match lnkey_of c with
+           | Some k => vi_motionln (map chop lines) rows top (negb (a1 =? 0) || negb (a2 =? 0)) (vi_cnt_m a1 a2) k r
+           | None => None
+           end) with
+    | Some (Some r') => Ok (VInt c, upd (m1 ++ [[VUndef]; [VUndef]]) br [VInt r'])
+    | Some None => Ok (VInt (-1), m1 ++ [[VUndef]; [VUndef]])
+    | None => Ok (VInt 0, m3)
+    end.
+Proof.
+  intros ext m m1 m3 lb bln lbs lines br r a1 a2 top rows c cmd vb d fuel A B C D E F G H I J K L M N O.
+  exact (tr_vi_motionln ext m m1 m3 lb bln lbs lines br r a1 a2 top rows c cmd vb A B C D E F G H I J K L d fuel M N O).
+Qed.
+Print Assumptions C07_tr_vi_motionln.
+
+(* it runs, with an oracle that types the key: the two-line buffer of C07_tr_nonvacuous, the cursor on row 0, vi_arg1 = 7: 7G goes to the
+   LAST line (row 1, fix 4be34b5), 7j too, 7k from row 1 to row 0, 7_ to row 1, H to the top row, 50% (vi_arg1 = 50) to row 0; `w`
+   is no line motion: pushed back, 0 returned *)
+Example C07_tr_motionln_runs :
+  let G := ex_G in
+  let gl a1 top := upd (upd (upd cglobals G_bufs (upd gb_bufs 33 (VPtr G 0))) G_vi_arg1 [VInt a1]) G_xtop [VInt top] in
+  let mm a1 top r := gl a1 top ++ [ex_struct; [VPtr (G + 2) 0; VPtr (G + 3) 0; VInt 0; VInt 0];
+                                    cstr_block (zb (nthl ex_lines 0)); cstr_block (zb (nthl ex_lines 1)); [VInt r]] in
+  let ext key := fun (f : nat) (args : list val) (m : CLite.mem) =>
+                   if Nat.eqb f X_vi_read then Ok (VInt key, m) else if Nat.eqb f X_term_rows then Ok (VInt 23, m)
+                   else if Nat.eqb f X_vi_back then Ok (VUndef, m) else Err EShape in
+  let run key a1 top r := callx (ext key) cprog 100 10 F_vi_motionln [VPtr (G + 4) 0; VInt 0] (mm a1 top r) in
+  (forall a1 top r, ln_mem (mm a1 top r) G (G + 1) [G + 2; G + 3]%nat ex_lines (G + 4) r a1 0 top) /\
+  run 71 7 0 0 = Ok (VInt 71, mm 7 0 1 ++ [[VUndef]; [VUndef]]) /\
+  vi_motionln (map chop ex_lines) 23 0 true (vi_cnt_m 7 0) KG 0 = Some (Some 1%Z) /\
+  run 106 7 0 0 = Ok (VInt 106, mm 7 0 1 ++ [[VUndef]; [VUndef]]) /\
+  run 107 7 0 1 = Ok (VInt 107, mm 7 0 0 ++ [[VUndef]; [VUndef]]) /\
+  run 95 7 0 0 = Ok (VInt 95, mm 7 0 1 ++ [[VUndef]; [VUndef]]) /\
+  run 72 0 1 0 = Ok (VInt 72, mm 0 1 1 ++ [[VUndef]; [VUndef]]) /\
+  run 37 50 0 1 = Ok (VInt 37, mm 50 0 0 ++ [[VUndef]; [VUndef]]) /\
+  run 119 0 0 1 = Ok (VInt 0, mm 0 0 1 ++ [[VUndef]; [VUndef]]).
+Proof.
+  cbv zeta. split.
+  { intros a1 top r. constructor; try reflexivity.
+    - constructor.
+      + exists ex_struct. repeat split; reflexivity.
+      + exists [VPtr (ex_G + 2) 0; VPtr (ex_G + 3) 0; VInt 0; VInt 0]. split; [reflexivity|]. split; [cbn; lia|].
+        intros [|[|i]] Hi; try reflexivity. cbn in Hi. lia.
+      + reflexivity.
+      + intros [|[|i]] Hi; try reflexivity. cbn in Hi. lia.
+      + repeat (apply NoDup_cons; [cbn [In]; intros H; repeat (destruct H as [H|H]; [lia|]); exact H|]). apply NoDup_nil.
+      + repeat (apply Forall_cons; [repeat (apply Forall_cons; [cbv; split; reflexivity|]); apply Forall_nil|]). apply Forall_nil.
+    - eexists. split; reflexivity. }
+  repeat match goal with |- _ /\ _ => split end; vm_compute; reflexivity.
+Qed.
+End C07_translated_5.
